@@ -123,6 +123,13 @@ func (b *batchedEvents) UnmarshalMsg(bts []byte) (o []byte, err error) {
 		err = msgp.WrapError(err)
 		return
 	}
+	// Every event takes at least one byte, so a count beyond what is left of the
+	// body is malformed. Checking before allocating keeps a five-byte body that
+	// announces four billion events from exhausting memory.
+	if uint64(totalValues) > uint64(len(bts)) {
+		err = msgp.WrapError(msgp.ErrShortBytes)
+		return
+	}
 	b.events = make([]batchedEvent, totalValues)
 	for i := range b.events {
 		b.events[i].cfg = b.cfg
